@@ -206,9 +206,54 @@ def eval_ab(case):
     return mkres(case, nt=True, classes=['engine-B', 'arch:' + name] + ([] if locals().get('agree', True) else ['AB-disagree']), fails=fails)
 
 
+def _u(s):
+    return s.encode('utf-8').decode('latin-1')
+
+
+# names a peer may put into a name-list that look like something else to the code that renders them: numbers
+# (also in other scripts), format directives, report prefixes, control bytes, boundary lengths
+ODD_NAMES = ['1', '0', '-1', '+1', '007', '1e3', '0x10', '1_000', _u('\u0661\u0662\u0663'), _u('\u00b2'), _u('\u2460'), _u('\u0be7'), _u('\uff11\uff12'), _u('\u00bd'),
+             '%s', '%d', '%(x)s', '%', '{}', '{0}', '{x}', '{', '}', '\\', '"', "'", '\x1b[31m', '\x00', '\xff\xfe', _u('\u0085'), _u('\u2028'),
+             'a' * 63, 'a' * 64, 'a' * 65, 'a' * 1000, ' ', '\t', '\r', 'a\nb', '-', '--', '@', 'a@', '@b', '=', 'a=b', 'none', 'None', 'null', 'true', 'nan', 'inf',
+             'ext-info-s', 'kex-strict-s-v00@openssh.com', 'kex-strict-c-v00@openssh.com', 'SSH-2.0-x', '(rec)', '# general', '[fail]', '*', '.*', '\\d+']
+NAME_MODES = {'text': ([], False), 'json': (['-j'], False), 'verbose': (['-v'], False), 'batch': (['-b'], False), 'level': (['-l', 'warn'], False),
+              'policy': (['-P', 'Hardened OpenSSH Server v9.9 (version 1)'], False), 'policy-json': (['-j', '-P', 'Hardened OpenSSH Server v9.9 (version 1)'], False),
+              'client': (['-c'], True), 'client-json': (['-c', '-j'], True), 'client-policy': (['-c', '-P', 'Hardened Ubuntu Client 24.04 LTS (version 1)'], True)}
+
+
+def eval_names(case):
+    """A well-framed KEXINIT whose name-lists contain one odd name (alone or after an ordinary one)."""
+    argv0, client = NAME_MODES[case['mode']]
+    lists = {'kex': ['curve25519-sha256'], 'key': ['ssh-ed25519'], 'enc': ['aes128-ctr'], 'mac': ['hmac-sha2-256'], 'comp': ['none']}
+    lists[case['cat']] = [case['name']] if case['alone'] else lists[case['cat']] + [case['name']]
+    spec = dict(lists, hostkeys=HK_ED)
+    peer = fakenet.peer_from_spec(spec)
+    net = fakenet.FakeNet()
+    argv = ['-n'] + list(argv0)
+    if client:
+        net.pending_clients.append(peer)
+    else:
+        net.add('h', 22, peer)
+        argv += ['--skip-rate-test', 'h']
+    r = drive.run_cli(argv, net)
+    fails = []
+    tag = 'odd name in %s list (%s), mode %s: %r' % (case['cat'], 'alone' if case['alone'] else 'second', case['mode'], case['name'][:40])
+    if r.hang:
+        fails.append(['hang:handshake', tag])
+    elif r.exc:
+        fails.append(['%s:odd-name' % drive.crash_sig(r), '%s: %s' % (tag, r.exc.strip().splitlines()[-1][:200])])
+    elif r.code not in (0, 1, 2, 3):
+        fails.append(['undocumented-exit-status-%d' % r.code, tag])
+    elif has_report(r.out, argv) != (r.code in (0, 2, 3)):
+        fails.append(['report-presence-vs-status', '%s: exit %d' % (tag, r.code)])
+    return mkres(case, nt=True, classes=['odd-names', 'mode:' + case['mode'], 'cat:' + case['cat']], fails=fails)
+
+
 def eval_case(case):
     if case.get('kind') == 'ab':
         return eval_ab(case)
+    if case.get('kind') == 'names':
+        return eval_names(case)
     if case.get('kind') == 'fuzz':
         from vlib import fuzzrun
         return fuzzrun.eval_fuzz_case(case)
@@ -401,6 +446,11 @@ def enumerate_faults(name, quick, rng):
                 cur = struct.unpack('>H', body1[o:o + 2])[0]
                 for v in (0, 1, 7, 8, 9, cur - 8, cur - 1, cur + 1, cur + 8, 0x7fff, 0x8000, 0xffff):
                     add(idx, what, ['ssh1_set_u16', o, v])
+            # the announced key sizes (32-bit fields in front of each key) against the real ones
+            for o in (8, offs[2] - 4):
+                cur = struct.unpack('>I', body1[o:o + 4])[0]
+                for v in (0, 1, 7, 8, cur - 9, cur - 8, cur - 1, cur + 1, cur + 8, cur * 2, 0x7fffffff, 0xffffffff):
+                    add(idx, what, ['ssh1_set_u32', o, v])
             for t in (0, 1, 3, 14, 15, 20, 36, 255):
                 add(idx, what, ['ssh1_type', t])
             add(idx, what, ['ssh1_append', '\x00'])
@@ -495,6 +545,9 @@ def run(ctx):
     ab = [dict(c, kind='ab') for c in pool[:(32 if ctx.quick else 400)]]
     ctx.map(ab, chunk=1)
     ctx.note(traces_validated_against_impl=len(ab))
+    odd = [{'kind': 'names', 'mode': m, 'cat': c, 'name': n, 'alone': al} for m in NAME_MODES for c in ('kex', 'key', 'enc', 'mac', 'comp') for n in ODD_NAMES for al in (True, False)]
+    ctx.map(odd)
+    ctx.note(odd_name_cases=len(odd))
     ctx.hyp('strat_mutation', 15000 if ctx.quick else 200000, label=1)
     ctx.hyp('strat_double', 8000 if ctx.quick else 100000, label=2)
     if not ctx.quick:
